@@ -280,3 +280,93 @@ theorem fbLoop_bomNo {pos0 : Bool} {d e : UInt8} {r : Bytes} {j : Nat} {bom : Bo
   simp [fbLoop_top_cons, isBlank, hn]
 
 end Jomini.TextReader
+
+namespace Jomini.TextReader
+open Jomini Jomini.TextReader.Spec
+
+/-! ### which arm produced a refill request -/
+
+theorem eq_of_beq {c k : UInt8} (h : (c == k) = true) : c = k := by simpa using h
+
+theorem quoteTok_refill {r : Bytes} {j : Nat} {st : PState} {carry off : Nat} :
+    quoteTok r j = .refill st carry off → st = .quote ∧ quoteScan r 0 = .more carry off := by
+  unfold quoteTok; cases h : quoteScan r 0 <;> simp
+  intro h1 h2 h3; exact ⟨h1.symm, h2, h3⟩
+
+theorem unqTok_refill {c : UInt8} {r : Bytes} {j : Nat} {st : PState} {carry off : Nat} :
+    unqTok c r j = .refill st carry off →
+      st = .unquoted ∧ findIdx isBoundary r 0 = none ∧ carry = r.length + 1 ∧ off = r.length + 1 := by
+  unfold unqTok; cases h : findIdx isBoundary r 0 <;> simp
+  intro h1 h2 h3; exact ⟨h1.symm, h2.symm, h3.symm⟩
+
+theorem opTok2_refill {p q : Op} {r : Bytes} {j : Nat} {st : PState} {carry off : Nat} :
+    opTok2 p q r j = .refill st carry off → st = .none ∧ carry = r.length + 1 ∧ off = 0 := by
+  unfold opTok2; cases r with
+  | nil => simp; intro h1 h2 h3; exact ⟨h1.symm, h2.symm, h3.symm⟩
+  | cons d r => simp only; split <;> simp
+
+theorem opTok1_refill {o : Op} {r : Bytes} {j : Nat} {st : PState} {carry off : Nat} :
+    opTok1 o r j = .refill st carry off → st = .none ∧ carry = r.length + 1 ∧ off = 0 := by
+  unfold opTok1; cases r with
+  | nil => simp; intro h1 h2 h3; exact ⟨h1.symm, h2.symm, h3.symm⟩
+  | cons d r => simp only; split <;> simp
+
+/-- every refill request of a token arm: which state, and that the carry is the whole tail -/
+theorem tokenAt_refill {c : UInt8} {r : Bytes} {j : Nat} {st : PState} {carry off : Nat}
+    (h : tokenAt c r j = .refill st carry off) :
+    (st = .none ∧ carry = r.length + 1 ∧ (c == 0xef) = false) ∨
+    (st = .quote ∧ c = 34 ∧ quoteScan r 0 = .more carry off) ∨
+    (st = .unquoted ∧ findIdx isBoundary r 0 = none ∧ carry = r.length + 1 ∧ off = r.length + 1 ∧
+      ∀ b, tokenAt c (r ++ b) j = unqTok c (r ++ b) j) := by
+  unfold tokenAt at h
+  split at h; · simp at h
+  split at h; · simp at h
+  split at h
+  · rename_i h34
+    have := quoteTok_refill h
+    right; left; exact ⟨this.1, by simpa using h34, this.2⟩
+  split at h
+  · rename_i _ _ _ h64
+    have hc : c = 64 := by simpa using h64
+    subst hc
+    unfold atTok at h
+    cases r with
+    | nil => simp at h; left; obtain ⟨h1, h2, _⟩ := h; exact ⟨h1.symm, by simp [h2.symm], by decide⟩
+    | cons d r' =>
+      simp only at h
+      split at h
+      · cases hf : findIdx (· == 93) r' 0 with
+        | none => rw [hf] at h; simp at h; left; obtain ⟨h1, h2, _⟩ := h; exact ⟨h1.symm, by simp [← h2], by decide⟩
+        | some k => rw [hf] at h; simp at h
+      · rename_i hd
+        have := unqTok_refill h
+        right; right
+        refine ⟨this.1, this.2.1, this.2.2.1, this.2.2.2, ?_⟩
+        intro b
+        simp [tokenAt, atTok, hd]
+  split at h
+  · rename_i hc; have := opTok2_refill h; left; exact ⟨this.1, this.2.1, by rw [eq_of_beq hc]; decide⟩
+  split at h
+  · rename_i hc; have := opTok2_refill h; left; exact ⟨this.1, this.2.1, by rw [eq_of_beq hc]; decide⟩
+  split at h
+  · rename_i hc; have := opTok1_refill h; left; exact ⟨this.1, this.2.1, by rw [eq_of_beq hc]; decide⟩
+  split at h
+  · rename_i hc; have := opTok1_refill h; left; exact ⟨this.1, this.2.1, by rw [eq_of_beq hc]; decide⟩
+  split at h
+  · rename_i hc; have := opTok2_refill h; left; exact ⟨this.1, this.2.1, by rw [eq_of_beq hc]; decide⟩
+  · rename_i h1 h2 h3 h4 h5 h6 h7 h8 h9
+    have := unqTok_refill h
+    right; right
+    refine ⟨this.1, this.2.1, this.2.2.1, this.2.2.2, ?_⟩
+    intro b
+    simp [tokenAt, h1, h2, h3, h4, h5, h6, h7, h8, h9]
+
+theorem tokenAt_quote (r : Bytes) (j : Nat) : tokenAt 34 r j = quoteTok r j := by
+  simp [tokenAt]
+
+theorem tokenAt_not_bomFill (c : UInt8) (r : Bytes) (j : Nat) : tokenAt c r j ≠ .bomFill := by
+  unfold tokenAt quoteTok atTok opTok1 opTok2 unqTok
+  repeat' split
+  all_goals simp
+
+end Jomini.TextReader
